@@ -151,11 +151,45 @@ def run_sim(sc):
         def __exit__(self, *a):
             self.release()
 
+    class HeldLock(object):
+        """the write lock while another thread of the application sits in a sendall from tick A to tick B: whoever asks for it in
+        between waits (the virtual clock moves to B); non-blocking probes fail"""
+
+        def __init__(self, a, b):
+            self.a, self.b = a, b
+            self.held = False
+
+        def _taken(self):
+            return self.a <= clock.ticks < self.b
+
+        def acquire(self, blocking=True, timeout=-1):
+            if self._taken():
+                if not blocking:
+                    return False
+                clock.ticks = self.b
+            self.held = True
+            return True
+
+        def release(self):
+            self.held = False
+
+        def locked(self):
+            return self.held or self._taken()
+
+        def __enter__(self):
+            self.acquire()
+            return self
+
+        def __exit__(self, *a):
+            self.release()
+
     class Sess(S.WebsocketSession):
         def __init__(self, *a, **kw):
             S.WebsocketSession.__init__(self, *a, **kw)
             if sc.get("busy_lock"):
                 self._lock = BusyLock()
+            if sc.get("held_lock"):
+                self._lock = HeldLock(*sc["held_lock"])
 
         def _connect(self):
             return tr, None
@@ -177,10 +211,12 @@ def run_sim(sc):
     return events, tr
 
 
-def gen(rnd, tls):
-    """arrival pattern: handshake, then bursts"""
+def gen(rnd, tls, held=False):
+    """arrival pattern: handshake, then bursts.  held: another thread of the application holds the write lock (it is inside a
+    sendall that the peer drains slowly) while the bursts arrive; the bursts then contain no Pings, so the loop itself has
+    nothing to write and must deliver everything at once"""
     arrivals = [(0, scen.HANDSHAKE)]
-    t = 0
+    t = 1 if held else 0      # held: the lock is taken after the upgrade request has been written (tick 0)
     expected = []     # (availability tick of the message's last byte, event)
     for b in range(rnd.choice([1, 2, 3])):
         t += rnd.choice([1, 500, 61 * 1024, 3 * 60 * 1024])
@@ -215,6 +251,8 @@ def gen(rnd, tls):
             frames = [(1, b"a" * 20000), (2, b"b" * 20000), (1, b"c" * 30000), (9, b"p")]
         else:
             frames = [(2, scen.rand_bytes(rnd, rnd.choice([0, 10, 5000]))) for _ in range(rnd.choice([3, 40]))] + [(9, b"x")]
+        if held:
+            frames = [(2 if op == 9 else op, p) for op, p in frames]
         data = raw if raw is not None else b"".join(E(op, p) for op, p in frames)
         # cut into TLS records / TCP segments, all available at the same instant t
         cuts = []
@@ -228,6 +266,8 @@ def gen(rnd, tls):
             arrivals.append((t, c))
         for op, p in frames:
             expected.append((t, [{1: 6, 2: 7, 9: 8}[op], p]))
+    if held:
+        return dict(tls=tls, arrivals=arrivals, _expected=expected, busy_lock=False, held_lock=[arrivals[1][0] - 1, t + 30 * 1024])
     return dict(tls=tls, arrivals=arrivals, _expected=expected, busy_lock=(rnd.random() < 0.3))
 
 
@@ -329,7 +369,7 @@ def run(rep, info, model, tier, seed):
     proof_ok = rep.proof_obligations(info, "props/C18.v")
     rep.assumptions += ["the kernel queue and the TLS record layer are modelled (one recv decrypts one whole record into the pending buffer); the real-socket runs are tests of that model, not proofs"]
     n = 200 if tier == "quick" else 3000
-    scs = [gen(rnd, tls=(i % 3)) for i in range(n)]
+    scs = [gen(rnd, tls=(i % 3)) for i in range(n)] + [gen(rnd, tls=(i % 3), held=True) for i in range(n // 8)]
     dis = 0
     for sc in scs:
         events, tr = run_sim(sc)
@@ -339,7 +379,7 @@ def run(rep, info, model, tier, seed):
         rep.count("records", "1-4" if len(sc["arrivals"]) <= 5 else ("5-50" if len(sc["arrivals"]) <= 51 else "51+"))
         res = oracle(sc, events, tr)
         if res:
-            rep.violation(res[0], scenario=fam.jsonable_sc(dict(kind="virtual", tls=sc["tls"], busy_lock=sc.get("busy_lock", False), arrivals=[[t, b] for t, b in sc["arrivals"]],
+            rep.violation(res[0], scenario=fam.jsonable_sc(dict(kind="virtual", tls=sc["tls"], busy_lock=sc.get("busy_lock", False), held_lock=sc.get("held_lock"), arrivals=[[t, b] for t, b in sc["arrivals"]],
                                                               expected=[[t, e] for t, e in sc["_expected"]])), family="C18:virtual-clock-bursts")
         sc["_recv_log"] = tr.recv_log
         if len(rep.samples) < 3:
@@ -358,7 +398,7 @@ def run(rep, info, model, tier, seed):
         if dis and not rep.violations:
             rep.broken("correspondence C18: the model's sequence of read sizes differs from the implementation on %d single-burst scenarios; first %r" % (dis, first))
     rep.families.append(dict(name="C18:virtual-clock-bursts", cases=n, disagreements=dis,
-                             rule="real session loop + REAL SelectorBase.wait over a simulated kernel queue and TLS pending buffer on the virtual clock with poll=60 s: bursts around 16 KiB records and the 64 KiB receive buffer (+-1), 2-5000 small frames per burst, messages spanning records; every message and automatic pong must appear at the very tick its last byte became available; in some runs the write lock looks taken to non-blocking probes (another thread is sending) while blocking acquisition succeeds"))
+                             rule="real session loop + REAL SelectorBase.wait over a simulated kernel queue and TLS pending buffer on the virtual clock with poll=60 s: bursts around 16 KiB records and the 64 KiB receive buffer (+-1), 2-5000 small frames per burst, messages spanning records; every message and automatic pong must appear at the very tick its last byte became available; in some runs the write lock looks taken to non-blocking probes (another thread is sending) while blocking acquisition succeeds; in others another thread holds it for 30 s and more (a sendall the peer drains slowly) while bursts without Pings arrive: reading must not wait for it"))
     # real sockets
     nreal = 2 if tier == "quick" else 12   # per transport; odd runs put the last byte of the burst in its own segment
     tmp = tempfile.mkdtemp(prefix="c18-", dir=core.BUILD)
@@ -395,7 +435,7 @@ def run(rep, info, model, tier, seed):
 def replay(body):
     sc = fam.unjson_sc(body["scenario"])
     if sc.get("kind") == "virtual":
-        sc2 = dict(tls=sc["tls"], busy_lock=sc.get("busy_lock", False), arrivals=[(t, b) for t, b in sc["arrivals"]],
+        sc2 = dict(tls=sc["tls"], busy_lock=sc.get("busy_lock", False), held_lock=sc.get("held_lock"), arrivals=[(t, b) for t, b in sc["arrivals"]],
                    _expected=[(t, e) for t, e in sc["expected"]])
         events, tr = run_sim(sc2)
         res = oracle(sc2, events, tr)
